@@ -514,7 +514,7 @@ fn main() {
         match t[0] {
             "case" => {
                 if let Some(c) = cur.take() {
-                    let _ = std::fs::remove_dir_all(&c.root);
+                    let _ = std::fs::remove_dir_all(base.join(format!("c{}", ncase)));
                 }
                 ncase += 1;
                 let root = base.join(format!("c{}", ncase)).join("ws");
@@ -526,6 +526,23 @@ fn main() {
                     texts: HashMap::new(),
                     idx: 0,
                 });
+            }
+            "prefix" => {
+                // relocate the workspace root of this case: <base>/cN/<prefix>/ws
+                if let Some(c) = cur.as_mut() {
+                    let _ = std::fs::remove_dir_all(&c.root);
+                    let top = c.root.parent().unwrap().to_path_buf();
+                    c.root = top.join(t[1]).join("ws");
+                    let _ = std::fs::create_dir_all(&c.root);
+                }
+            }
+            "rootname" => {
+                // name the workspace root directory itself (default "ws")
+                if let Some(c) = cur.as_mut() {
+                    let _ = std::fs::remove_dir_all(&c.root);
+                    c.root = c.root.parent().unwrap().join(t[1]);
+                    let _ = std::fs::create_dir_all(&c.root);
+                }
             }
             "text" => {
                 if let Some(c) = cur.as_mut() {
